@@ -1,31 +1,38 @@
 """Specification vocabulary for resolved positions and isolating boundaries (C09, C18)."""
-from spec.native import abstract, all_, any_, implies  # noqa: F401
+from spec.native import abstract, all_, any_, implies, len3, p3a, p3b, p3c  # noqa: F401
 
 
-@abstract
 def rp_node(rp: "ResolvedPos", d: int) -> "Node":
-    """ancestor at depth d"""
-    return rp.node(d)
+    """ancestor at depth d (read off the resolved path: [node, index, offset] per level)"""
+    return p3a(rp.path, d)
 
 
-@abstract
 def rp_index(rp: "ResolvedPos", d: int) -> int:
-    return rp.index(d)
+    """index into the ancestor at depth d"""
+    return p3b(rp.path, d)
 
 
-@abstract
 def rp_start(rp: "ResolvedPos", d: int) -> int:
-    return rp.start(d)
+    """absolute position of the start of the content of the ancestor at depth d"""
+    return 0 if d <= 0 else p3c(rp.path, d - 1) + 1
 
 
-@abstract
 def rp_end(rp: "ResolvedPos", d: int) -> int:
-    return rp.end(d)
+    return rp_start(rp, d) + p3a(rp.path, d).content.size
 
 
-@abstract
+def rp_toff(rp: "ResolvedPos") -> int:
+    """offset into the text node the position points into (0 at a child boundary)"""
+    return rp.pos - p3c(rp.path, rp.depth)
+
+
 def rp_index_after(rp: "ResolvedPos", d: int) -> int:
-    return rp.index_after(d)
+    return p3b(rp.path, d) + (0 if (d == rp.depth and rp.pos == p3c(rp.path, rp.depth)) else 1)
+
+
+def kids(rp: "ResolvedPos", d: int) -> "list[Node]":
+    """children of the ancestor at depth d"""
+    return p3a(rp.path, d).content.content
 
 
 def iso_at(rp: "ResolvedPos", d: int) -> bool:
